@@ -332,3 +332,38 @@ Example zero_len_inner_fixed :
         (EIndex (EIndex (ERoot (TSlice (TArr 0 (TInt 4))) 8192) usize None 1) usize None 0) false
   = Ok ([Load 8192 8; Load 8200 8; Print MArrayOob; Exit 1], Aborted).
 Proof. vm_compute. reflexivity. Qed.
+
+(* ------------------------------------------------------------------ the wide compare branch *)
+(* An index type wider than usize takes the branch `icmp ult index, uextend(len)`: the compare is made in
+   the index's own width on the untruncated value.  In particular an index EQUAL to the length aborts
+   (an off-by-one `ule` in that branch would let it through), for every such type and every length. *)
+Theorem wide_index_eq_len_aborts : forall rd s it mk nl st t1 ov v0 td th len base m et,
+  type_of s = Some st ->
+  compf true true rd s false = Ok (t1, Val ov) ->
+  src_val true ov = Some v0 ->
+  arr_view rd st v0 = Some (td, th, len, base, m, et) ->
+  isigned it = false -> 64 < ibits it -> 0 <= len < 2 ^ ibits it ->
+  compf true true rd (EIndex s it mk len) nl =
+    Ok (t1 ++ td ++ marker mk ++ th ++ fail_block m, Aborted).
+Proof.
+  intros rd s it mk nl st t1 ov v0 td th len base m et Hs Hc Hsv Hv Hu Hw Hl.
+  eapply oob_no_access_fixed_full; eauto.
+  - unfold idx_ty_accepted. rewrite Hu. reflexivity.
+  - rewrite ival_unsigned by exact Hu. lia.
+Qed.
+
+(* the compare really is the one of the wide branch: for a wide index the verdict is [iv <? len] on the
+   full-width value, for a narrow one [cast_to_usize it iv <? len] *)
+Lemma compf_branches : forall fz rd s it mk iv nl st t1 ov v0 td th len base m et,
+  type_of s = Some st ->
+  compf true fz rd s false = Ok (t1, Val ov) ->
+  src_val fz ov = Some v0 ->
+  arr_view rd st v0 = Some (td, th, len, base, m, et) ->
+  negb fz && is_zero_sized et = false ->
+  (if 64 <? ibits it then iv <? len else cast_to_usize it iv <? len) = false ->
+  compf true fz rd (EIndex s it mk iv) nl = Ok (t1 ++ td ++ marker mk ++ th ++ fail_block m, Aborted).
+Proof.
+  intros fz rd s it mk iv nl st t1 ov v0 td th len base m et Hs Hc Hsv Hv Hz Hg.
+  rewrite (compf_index_eq _ _ _ _ _ _ _ _ _ _ _ _ _ _ _ _ _ _ Hs Hc Hsv Hv Hz). cbv zeta.
+  cbn [andb]. rewrite Hg. rewrite <- !app_assoc. reflexivity.
+Qed.
